@@ -210,3 +210,15 @@ def const_value(body, defs, op):
         if len(ds) == 1 and ds[0][0] == 'assign' and ds[0][3].rv.kind == 'use':
             return const_value(body, defs, ds[0][3].rv.ops[0])
     return None
+
+
+def rvalue_origins(body, defs, stmt):
+    """origins of the value assigned by an Assign statement"""
+    rv = stmt.rv
+    if rv.kind == 'agg':
+        return [Origin('agg', rv, (), None, None)]
+    if rv.kind in ('use', 'cast') and rv.ops:
+        return origins(body, defs, rv.ops[0])
+    if rv.kind == 'ref':
+        return origins(body, defs, rv.place)
+    return [Origin('op', rv, (), None, None)]
